@@ -292,10 +292,23 @@ G_bodies(zz) ==
 
 (* Sessions: several requests with different credentials on ONE connection (a multi-user NFS   *)
 (* client); each request is served under its own credential (PolicyMC!NextRequest).            *)
-CStep(mode, cred) == [cred |-> cred, exp |-> AuthVerdict(ModeClass(Lower(mode)), cred)]
+(* A step is a request ("req", with its credential) or a run-time reconfiguration ("update") that  *)
+(* does not name a squash mode: "policy_ro" = UpdatePolicyOptions(PolicyOptions{ReadOnly: toggled}),*)
+(* "policy_allow" = UpdatePolicyOptions with only an allow-list (containing the client),           *)
+(* "policy_same" = UpdatePolicyOptions with a copy of the current policy, "export_ro" =            *)
+(* UpdateExportOptions(ExportOptions{ReadOnly: toggled}).  The squash mode is fixed at New()       *)
+(* (docs: immutable at run time), so whether such an update is accepted or refused, every later    *)
+(* request is squashed by the mode the export was created with (PolicyMC!RuntimeUpdate).           *)
+NoneCred == Cred("NONE", "ok", "0", "0", <<>>, 0, 0)
+CStep(mode, cred) == [kind |-> "req", how |-> "", cred |-> cred, exp |-> AuthVerdict(ModeClass(Lower(mode)), cred)]
+UStep(mode, how)  == [kind |-> "update", how |-> how, cred |-> NoneCred, exp |-> AuthVerdict(ModeClass(Lower(mode)), NoneCred)]
 CSess(mode, creds) == [group |-> "session", mode |-> mode, lower |-> Lower(mode),
                        steps |-> [i \in 1..Len(creds) |-> CStep(mode, creds[i])]]
-NoneCred == Cred("NONE", "ok", "0", "0", <<>>, 0, 0)
+\* items: a credential record (has field "flavor") or an update name (a string)
+USess(mode, items) == [group |-> "session_update", mode |-> mode, lower |-> Lower(mode),
+                       steps |-> [i \in 1..Len(items) |-> IF items[i].u = "" THEN CStep(mode, items[i].c) ELSE UStep(mode, items[i].u)]]
+RQ(c) == [u |-> "", c |-> c]
+UP(how) == [u |-> how, c |-> NoneCred]
 RandCred(salt) == SysOk(Pick(salt), Pick(salt + 1), [i \in 1..(Rand(salt + 2) % 4) |-> Pick(salt + 2 + i)])
 G_csessions(zz) ==
   Cat(Seq1toN(5, LAMBDA mi :
@@ -305,7 +318,11 @@ G_csessions(zz) ==
       CSess(m, <<NoneCred, SysOk("0", "0", <<>>), Cred("DH", "ok", "0", "0", <<>>, 2, 0), SysOk("4294967295", "2147483648", <<"1000">>)>>),
       CSess(m, <<Cred("SYS", "cut", "0", "0", <<"0">>, 2, 12), SysOk("1000", "0", <<"0">>), SysOk("0", "1000", <<"1000">>)>>),
       CSess(m, [i \in 1..4 |-> RandCred(mi * 100 + i * 10)]),
-      CSess(m, [i \in 1..5 |-> RandCred(mi * 100 + 50 + i * 7)])>>))
+      CSess(m, [i \in 1..5 |-> RandCred(mi * 100 + 50 + i * 7)]),
+      USess(m, <<RQ(SysOk("0", "0", <<"0">>)), UP("policy_ro"), RQ(SysOk("0", "0", <<"0">>)), RQ(SysOk("1000", "0", <<"0", "1000">>)),
+                 UP("export_ro"), RQ(SysOk("0", "1", <<>>))>>),
+      USess(m, <<UP("policy_allow"), RQ(SysOk("0", "1000", <<"0">>)), UP("policy_same"), RQ(SysOk("0", "0", <<"0">>)), RQ(NoneCred),
+                 UP("policy_ro"), RQ(SysOk("1", "0", <<"0", "65535">>))>>)>>))
 
 C10Vectors(zz) == Number(G_exhaustive(zz) \o G_sampled(zz) \o G_flavors(zz) \o G_bodies(zz))
                   \o NumberSess(G_csessions(zz))
